@@ -184,6 +184,7 @@ Section C.
   Variable xval : cset Tm G Y -> Val.
   Variable aval : cset Tm G Y -> Res -> Res -> Val.
   Variable same_comp : cset Tm G Y -> list (cset Tm G Y) -> bool.
+  Variable cval : Res -> cset Tm G Y -> cset Tm G Y -> Val.
 
   (* whatever pycalphad does: every composition set kawin hands to the solver - freshly made or taken
      from a cache - carries the temperature and extra energy of the conditions of THIS call *)
@@ -196,20 +197,40 @@ Section C.
   Qed.
 
   (* removeCache resets exactly the three driving-force caches of the phase *)
-  Theorem C09_reset_df_exact (s : tstate Tm G Y Smp) p :
+  Theorem C09_reset_df_exact (s : tstate Tm G Y Smp Val) p :
     let s' := reset_df s p true in
     aget p (df_cs s') = None /\ mat_cs s' = None /\ aget p (pts s') = None /\
     (forall q, q <> p -> aget q (df_cs s') = aget q (df_cs s) /\ aget q (pts s') = aget q (pts s)) /\
     diff_cs s' = diff_cs s /\ curv_cs s' = curv_cs s.
-  Proof. exact (reset_df_exact Tm G Y Smp s p). Qed.
+  Proof. exact (reset_df_exact Tm G Y Smp Val s p). Qed.
 
   (* the diffusivity cache is keyed by phase and removeCache leaves nothing behind *)
-  Theorem C09_diffusivity_cache_per_phase (val : Res -> list (cset Tm G Y) -> Val) (s : tstate Tm G Y Smp) x T rm p :
+  Theorem C09_diffusivity_cache_per_phase (val : Res -> list (cset Tm G Y) -> Val) (s : tstate Tm G Y Smp Val) x T rm p :
     let s' := fst (diffusivity cdT cdG cond_x g0 solve naive val s x T rm p) in
     (rm = true -> aget p (diff_cs s') = None) /\
     (forall q, q <> p -> aget q (diff_cs s') = aget q (diff_cs s)) /\
     df_cs s' = df_cs s /\ mat_cs s' = mat_cs s /\ pts s' = pts s /\ curv_cs s' = curv_cs s.
   Proof. exact (diffusivity_frame X Tm G Y Res Smp Val Cd cdT cdG cond_x g0 solve naive val s x T rm p). Qed.
+
+  (* curvatureFactor(..., removeCache=True): the answer comes from the equilibrium of THIS call or is None -
+     never an earlier result - and no composition sets are kept for the phase; whatever pycalphad does,
+     whatever the caches hold, at every point (also where no tie-line exists) *)
+  Theorem C09_curvature_remove_cache (s : tstate Tm G Y Smp Val) x T p :
+    snd (curvature cdT cdG cond_x gOff solve naive is_nan global_eq cval s x T p true) =
+      match compsets_eq cdT cdG cond_x gOff solve naive is_nan global_eq (aget p (curv_cs s)) x T p with
+      | Some (mu, Some cm, Some cp) => Some (cval mu cm cp)
+      | _ => None
+      end /\
+    aget p (curv_cs (fst (curvature cdT cdG cond_x gOff solve naive is_nan global_eq cval s x T p true))) = None.
+  Proof. exact (curvature_remove_cache X Tm G Y Res Smp Val Cd cdT cdG cond_x gOff solve naive is_nan global_eq cval s x T p). Qed.
+
+  (* ... whereas with removeCache=False a point without tie-line gets the previous result of the phase
+     (kawin's documented fall-back; the reason why part C is stated for the stable range) *)
+  Theorem C09_curvature_fallback (s : tstate Tm G Y Smp Val) x T p l0 :
+    aget p (curv_cs s) = Some l0 ->
+    (forall mu cm cp, compsets_eq cdT cdG cond_x gOff solve naive is_nan global_eq (Some l0) x T p <> Some (mu, Some cm, Some cp)) ->
+    snd (curvature cdT cdG cond_x gOff solve naive is_nan global_eq cval s x T p false) = aget p (curv_out s).
+  Proof. exact (curvature_fallback X Tm G Y Res Smp Val Cd cdT cdG cond_x gOff solve naive is_nan global_eq cval s x T p l0). Qed.
 
   (* ---- hypotheses about pycalphad (sampled by the harness, not proved) ---- *)
   Hypothesis Tm_eqb_spec : forall a b, Tm_eqb a b = true <-> a = b.
@@ -228,14 +249,14 @@ Section C.
       local_eq cdT cdG solve naive [0%nat; p] (cond_x x T gOff) (Some l0) = (mu, [cm; cp]) /\
       cs_ph cm = 0%nat /\ cs_ph cp = p.
 
-  Notation run := (run Tm_eqb cdT cdG cond_x cond_mu g0 gOff solve naive is_nan sample best global_eq dval tval gval xval aval same_comp).
-  Notation run1 := (run1 Tm_eqb cdT cdG cond_x cond_mu g0 gOff solve naive is_nan sample best global_eq dval tval gval xval aval same_comp).
-  Notation history_ok := (history_ok X Tm G Y Res Smp Val Tm_eqb Cd cdT cdG cond_x cond_mu g0 gOff solve naive is_nan sample best global_eq dval tval gval xval aval same_comp).
+  Notation run := (run Tm_eqb cdT cdG cond_x cond_mu g0 gOff solve naive is_nan sample best global_eq dval tval gval xval aval same_comp cval).
+  Notation run1 := (run1 Tm_eqb cdT cdG cond_x cond_mu g0 gOff solve naive is_nan sample best global_eq dval tval gval xval aval same_comp cval).
+  Notation history_ok := (history_ok X Tm G Y Res Smp Val Tm_eqb Cd cdT cdG cond_x cond_mu g0 gOff solve naive is_nan sample best global_eq dval tval gval xval aval same_comp cval).
   Notation in_domain := (in_domain X Tm G Y Res gOff is_nan global_eq).
 
   (* THE statement of part C.  Two objects start fresh with method m0 and go through ARBITRARY histories
      h, h' of queries (driving force - tangent, sampling or approximate method -, interdiffusivity, tracer
-     diffusivity, for any phases, removeCache on or off, clearCache, changes of method; any orders,
+     diffusivity, curvature factors, for any phases, removeCache on or off, clearCache, changes of method; any orders,
      repetitions, temperature jumps).  If they end up configured with the same method, every query gets
      the same answer from both.  (`history_ok` / `in_domain` only restrict driving-force queries by the
      approximate method to points of the two-phase region.) *)
@@ -247,32 +268,34 @@ Section C.
     snd (run1 o q) = snd (run1 o' q).
   Proof.
     exact (history_independent X Tm G Y Res Smp Val Tm_eqb Tm_eqb_spec Cd cdT cdG cond_x cond_mu g0 gOff solve naive
-             is_nan sample best global_eq dval tval gval xval aval same_comp
+             is_nan sample best global_eq dval tval gval xval aval same_comp cval
              start_independent solver_keeps_phases global_is_local m0 h h' q).
   Qed.
 
   (* repeating a call gives the same answer *)
-  Theorem C09_repeat_same (o : obj Tm G Y Smp) (q : query X Tm) :
-    wfo Tm G Y Smp sample o -> in_domain (fst o) q -> (forall m', q <> QMethod m') ->
+  Theorem C09_repeat_same (o : obj Tm G Y Smp Val) (q : query X Tm) :
+    wfo Tm G Y Smp Val sample o -> in_domain (fst o) q -> (forall m', q <> QMethod m') ->
     snd (run1 (fst (run1 o q)) q) = snd (run1 o q).
   Proof.
     exact (repeat_same X Tm G Y Res Smp Val Tm_eqb Tm_eqb_spec Cd cdT cdG cond_x cond_mu g0 gOff solve naive
-             is_nan sample best global_eq dval tval gval xval aval same_comp
+             is_nan sample best global_eq dval tval gval xval aval same_comp cval
              start_independent solver_keeps_phases global_is_local o q).
   Qed.
 
   (* the caches stay well formed along every history (so C09_repeat_same applies at every point of it) *)
   Theorem C09_history_wf m0 (h : list (query X Tm)) :
-    history_ok (obj_init m0) h -> wfo Tm G Y Smp sample (fst (run (obj_init m0) h)).
+    history_ok (obj_init m0) h -> wfo Tm G Y Smp Val sample (fst (run (obj_init m0) h)).
   Proof.
     exact (fun H => run_wf X Tm G Y Res Smp Val Tm_eqb Tm_eqb_spec Cd cdT cdG cond_x cond_mu g0 gOff solve naive
-             is_nan sample best global_eq dval tval gval xval aval same_comp
-             solver_keeps_phases global_is_local h (obj_init m0) (wf_init Tm G Y Smp sample m0) H).
+             is_nan sample best global_eq dval tval gval xval aval same_comp cval
+             solver_keeps_phases global_is_local h (obj_init m0) (wf_init Tm G Y Smp Val sample m0) H).
   Qed.
 End C.
 Print Assumptions C09_solver_input_refreshed.
 Print Assumptions C09_reset_df_exact.
 Print Assumptions C09_diffusivity_cache_per_phase.
+Print Assumptions C09_curvature_remove_cache.
+Print Assumptions C09_curvature_fallback.
 Print Assumptions C09_history_independent.
 Print Assumptions C09_repeat_same.
 Print Assumptions C09_history_wf.
